@@ -62,7 +62,7 @@ def floors(tier):
     return {'evaluations': 2000, 'distinct_nontrivial': 20000, 'legacy_calls_compared': 100000,
             'spelling_parses_compared': 15000, 'histkeys:method': 11, 'histkeys:spelling': 8,
             'histkeys:argspec': 121, 'k4_witness_checked': 1, 'optarg_views_checked': 2000,
-            'histkeys:env_is_math_mode': 3, 'hist:call_context:bracket': 300, 'hist:call_context:math': 100}
+            'histkeys:env_is_math_mode': 3, 'histkeys:get_token_parsing_state': 7, 'hist:call_context:bracket': 300, 'hist:call_context:math': 100}
 
 
 def setup(rec):
@@ -119,9 +119,17 @@ def compare_walker(s, pos, tol, rng, rec):
     # ---- get_token
     ibc = rng.choice([None, [('[', ']')], [('<', '>'), ('(', ')')]])
     envs = rng.choice([True, False])
+    # the caller's parsing state (parsing_state=): None, or a state derived from the walker's default one
+    psvariant = rng.choice([None, None, {'in_math_mode': True, 'math_mode_delimiter': '$'}, {'in_math_mode': True},
+                            {'macro_alpha_chars': 'ab@'}, {'enable_comments': False},
+                            {'latex_group_delimiters': [('{', '}'), ('(', ')')]}, {'enable_math': False}])
+    rec.hist('get_token_parsing_state', 'None' if psvariant is None else ','.join(sorted(psvariant)))
+
+    def caller_state():
+        return None if psvariant is None else w.make_parsing_state().sub_context(**psvariant)
 
     def new_tok():
-        ps = w.make_parsing_state()
+        ps = caller_state() or w.make_parsing_state()
         kw = {}
         if ibc:
             kw['latex_group_delimiters'] = ps.latex_group_delimiters + ibc
@@ -132,8 +140,13 @@ def compare_walker(s, pos, tol, rng, rec):
         t = LatexTokenReader(s, tolerant_parsing=tol)
         t.move_to_pos_chars(pos)
         return tokt(t.peek_token(ps))
-    cmp('get_token', (ibc, envs), run(lambda: tokt(w.get_token(pos, include_brace_chars=ibc, environments=envs))),
-        run(new_tok))
+
+    def old_tok():
+        kw = {}
+        if psvariant is not None:
+            kw['parsing_state'] = caller_state()
+        return tokt(w.get_token(pos, include_brace_chars=ibc, environments=envs, **kw))
+    cmp('get_token', (ibc, envs, psvariant), run(old_tok), run(new_tok))
     # ---- braced group
     bt = rng.choice(['{', '[', '(', '<', ('<', '>')])
 
